@@ -143,6 +143,7 @@ inductive BErr where
   | unknownField
   | unknownComp
   | overflow
+  | cycle        -- "circular reference to component" (after the `fix:` that tracks the components being built)
   deriving DecidableEq, Repr
 
 section
@@ -262,11 +263,107 @@ def buildWith (a : Ast ν) (fuel : Nat) (mk : List Part → MDef) : Except BErr 
         | .error e => .error e
         | .ok t => .ok { comps := memo, msgs := msgs, header := h, trailer := t }
 
-/-- builder.build (fixed tree) -/
+/-- builder.build with the D10 fix but without the circular-reference check (see `buildS` for the current tree) -/
 def build (a : Ast ν) : Except BErr (Dict ν) := buildWith a (a.size + 1) newMessageDef
 
 /-- builder.build on the unchanged tree (D10) -/
 def buildOrig (a : Ast ν) : Except BErr (Dict ν) := buildWith a (a.size + 1) newMessageDefOrig
+
+/-! ## the builder after the `fix:` that refuses circular component references
+
+  `builder.building` (names of the components whose build is in progress) is the extra argument `stack`;
+  `buildComponentType` returns an error when asked to build a component that is already on it.  Everything else is as
+  above; `buildParts` / `buildWith` (no check: the unchanged tree, which recursed without bound) are kept, and
+  `buildPartsS_ok` (Lemmas) shows that a successful checked build is a successful unchecked build with the same result,
+  so that every statement about successful builds carries over.  The recursion is still on `fuel`; with the check the
+  default budget `Ast.size + 1` is never exhausted (`C19_no_overflow`), and a file with unique names and no dangling
+  reference is refused exactly when its component graph is cyclic, with `.cycle` (`C19_cycle_iff`).
+-/
+
+def buildPartsS (a : Ast ν) : Nat → Bool → Memo ν → List ν → List (Member ν) → Except BErr (List Part × Memo ν)
+  | 0, _, _, _, _ => .error .overflow
+  | _ + 1, _, memo, _, [] => .ok ([], memo)
+  | fuel + 1, top, memo, stack, .field n r :: rest =>
+    match a.fieldByName n with
+    | none => .error .unknownField
+    | some fd =>
+      match buildPartsS a fuel top memo stack rest with
+      | .error e => .error e
+      | .ok (ps, memo') => .ok (.fld (.mk fd.num r [] []) :: ps, memo')
+  | fuel + 1, top, memo, stack, .group n r ms :: rest =>
+    match a.fieldByName n with
+    | none => .error .unknownField
+    | some fd =>
+      match buildPartsS a fuel false memo stack ms with
+      | .error e => .error e
+      | .ok (gps, memo1) =>
+        match buildPartsS a fuel top memo1 stack rest with
+        | .error e => .error e
+        | .ok (ps, memo2) => .ok (.fld (newGroupFieldDef fd.num r gps) :: ps, memo2)
+  | fuel + 1, top, memo, stack, .comp n r :: rest =>
+    match Memo.get? memo n with
+    | some ct =>
+      match buildPartsS a fuel top memo stack rest with
+      | .error e => .error e
+      | .ok (ps, memo') => .ok (.cmp ct r :: ps, memo')
+    | none =>
+      if top then .error .unknownComp
+      else
+        match a.compByName n with
+        | none => .error .unknownComp
+        | some cms =>
+          if stack.contains n then .error .cycle       -- buildComponentType: b.building[name]
+          else
+            match buildPartsS a fuel false memo (n :: stack) cms with
+            | .error e => .error e
+            | .ok (cps, memo1) =>
+              let ct := newComponentType cps
+              match buildPartsS a fuel top ((n, ct) :: memo1) stack rest with
+              | .error e => .error e
+              | .ok (ps, memo2) => .ok (.cmp ct r :: ps, memo2)
+
+def buildComponentsS (a : Ast ν) (fuel : Nat) : List (ν × List (Member ν)) → Memo ν → Except BErr (Memo ν)
+  | [], memo => .ok memo
+  | (n, ms) :: rest, memo =>
+    match Memo.get? memo n with
+    | some _ => buildComponentsS a fuel rest memo
+    | none =>
+      match buildPartsS a fuel false memo [n] ms with
+      | .error e => .error e
+      | .ok (ps, memo1) => buildComponentsS a fuel rest ((n, newComponentType ps) :: memo1)
+
+def buildMsgsS (a : Ast ν) (fuel : Nat) (mk : List Part → MDef) (memo : Memo ν) :
+    List (ν × List (Member ν)) → List (ν × MDef) → Except BErr (List (ν × MDef))
+  | [], acc => .ok acc
+  | (mt, ms) :: rest, acc =>
+    match buildPartsS a fuel true memo [] ms with
+    | .error e => .error e
+    | .ok (ps, _) => buildMsgsS a fuel mk memo rest ((mt, mk ps) :: acc)
+
+def buildOptS (a : Ast ν) (fuel : Nat) (mk : List Part → MDef) (memo : Memo ν) :
+    Option (List (Member ν)) → Except BErr (Option MDef)
+  | none => .ok none
+  | some ms =>
+    match buildPartsS a fuel true memo [] ms with
+    | .error e => .error e
+    | .ok (ps, _) => .ok (some (mk ps))
+
+def buildWithS (a : Ast ν) (fuel : Nat) (mk : List Part → MDef) : Except BErr (Dict ν) :=
+  match buildComponentsS a fuel a.comps [] with
+  | .error e => .error e
+  | .ok memo =>
+    match buildMsgsS a fuel mk memo a.msgs [] with
+    | .error e => .error e
+    | .ok msgs =>
+      match buildOptS a fuel mk memo a.header with
+      | .error e => .error e
+      | .ok h =>
+        match buildOptS a fuel mk memo a.trailer with
+        | .error e => .error e
+        | .ok t => .ok { comps := memo, msgs := msgs, header := h, trailer := t }
+
+/-- builder.build on the fixed tree (D10 fix and circular-reference check) -/
+def buildS (a : Ast ν) : Except BErr (Dict ν) := buildWithS a (a.size + 1) newMessageDef
 
 end
 end Qfx.Dict
